@@ -64,6 +64,8 @@ pub struct SentEv {
     pub dropped: bool,
     /// Client update tick in the first client frame in which the delivered event was due.
     pub due_u: Option<u32>,
+    /// Whether the event's entity reference was resolvable on the client in that frame (None = no reference).
+    pub due_resolvable: Option<bool>,
 }
 
 pub struct Session {
